@@ -32,7 +32,9 @@ CLAIMS = {
         'moment all its data was with the OS, and that the snapshot file exists once something was written; the model is '
         'checked exhaustively with a crash possible after every operation and restarts from the crash image; a directed class '
         'crashes INSIDE a compaction (after the write / sync / close of the temp file), restarts on the image with the stale '
-        'temp file, removes a member, compacts again and restarts (second generation).',
+        'temp file, removes a member, compacts again and restarts (second generation); a torn-tail class cuts snapshot images '
+        '(at shutdowns, crashes and, for a quarter of the histories, after every write) at every byte offset inside their '
+        'last line and requires the real replay of each cut to equal the replay of the whole-lines image.',
         _TRUST, _TECH, '5 C11',
     ),
     'C12': (
@@ -50,7 +52,9 @@ CLAIMS = {
         '(enabled), with events, ticks and forced compactions before and after the leave and a further session appending '
         'after the leave line; simulated histories with a leave are executed on the real Snapshotter and validated by TLC, '
         'including bursts of events still buffered at shutdown and histories whose threshold is placed so that the 6-byte '
-        'leave line itself triggers the compaction.',
+        'leave line itself triggers the compaction; Serf-level histories (TLC-simulated: peer joins / failures / leaves, '
+        'restarts from the snapshot) issue the leave through the real Serf.Leave of a quiet Serf node with a snapshot file, '
+        'with some peer alive, all failed, all left, or peers known only from the snapshot.',
         _TRUST, _TECH, '5 C13',
     ),
 }
@@ -218,9 +222,52 @@ def close_session(steps):
     return steps
 
 
-def mk(sid, steps, mcs, ral, cls, tcls, cid):
-    return {"id": sid, "cfg": {"mcs": mcs, "ral": ral, "nn": NN, "na": NA, "maxt": MAXT, "cls": cls, "tcls": tcls, "cid": cid},
+def mk(sid, steps, mcs, ral, cls, tcls, cid, torn=None):
+    """torn: torn-tail crash class (0 none, 1 at shutdowns and crashes, 2 also after every write of the snapshot);
+    default: 2 for every fourth schedule, 1 otherwise, never for the newline class (its lines are not lines)."""
+    if torn is None:
+        torn = 0 if cls == "newline" else (2 if sid % 4 == 1 else 1)
+    return {"id": sid, "cfg": {"mcs": mcs, "ral": ral, "nn": NN, "na": NA, "maxt": MAXT, "cls": cls, "tcls": tcls, "cid": cid,
+                               "torn": torn},
             "steps": steps}
+
+
+def serf_level(ctx, num, depth):
+    """Serf-level histories (C13): TLC-simulated behaviours of Gen_SnapSerf, each ending with Leave, Shutdown, start."""
+    c = "CONSTANT NP = %d\nCONSTANT MaxSteps = %d\nINIT GenInit\nNEXT GenNext\n" % (NN - 1, depth)
+    _, behs = vlib.simulate_schedules(ctx, "Gen_SnapSerf", c, num, int(depth * 2.6) + 4, timeout=900)
+    # the history the seeded change needs is always there: peers known from the snapshot, none alive now, Leave
+    behs = [[{"a": "started"}, {"a": "pjoin", "x": 2}, {"a": "shutdown"}, {"a": "started"}],
+            [{"a": "started"}, {"a": "pjoin", "x": 2}, {"a": "pjoin", "x": 3}, {"a": "pfail", "x": 2}, {"a": "pleave", "x": 3}],
+            [{"a": "started"}]] + [[r for r in b if r.get("a") != "init"] for b in behs]
+    out, seen = [], set()
+    for i, steps in enumerate(behs):
+        steps = [dict(st) for st in steps]
+        if not steps or steps[0]["a"] != "started":
+            continue
+        up, left = False, False
+        for st in steps:
+            if st["a"] == "started":
+                up, left = True, False
+            elif st["a"] == "shutdown":
+                up = False
+            elif st["a"] == "leave":
+                left = True
+        if not up:
+            steps.append({"a": "started"})
+            left = False
+        if not left:
+            steps.append({"a": "leave"})
+        steps += [{"a": "shutdown"}, {"a": "started"}]
+        key = json.dumps(steps)
+        if key in seen:
+            continue
+        seen.add(key)
+        for ral in (False, True):
+            s = mk(500000 + len(out), steps, 128 * 1024, ral, "hostile" if i % 3 == 1 else "plain", "small", 500000 + i, torn=0)
+            s["cfg"]["serf"] = True
+            out.append(s)
+    return out
 
 
 # ----------------------------------------------------------------------------------------- execution
@@ -333,7 +380,7 @@ def run_all(ctx, binary, scheds, tag, par=None, validate=True):
                 if summ["sizes"][cur] and summ["sizes"][cur][-1]["after"] is None:
                     summ["sizes"][cur][-1]["after"] = off
                     summ["sizes"][cur][-1]["n_after"] = sum(1 for x in alive if x)
-            if a in ("feed", "tick", "leave", "shutdown", "started", "wit", "adv", "crash", "burst"):
+            if a in ("feed", "tick", "leave", "shutdown", "started", "wit", "adv", "crash", "burst") and cur < 500000:
                 step += 1
                 if a in ("feed", "tick", "leave", "shutdown"):
                     summ["opcount"][cur].append([step, 0])
@@ -627,7 +674,7 @@ def run_c12(ctx, binary):
     for i, steps in enumerate(base):
         steps = [st for st in steps if st["a"] != "shutdown"]
         bases.append(mk(i, close_session(steps + SUFFIX), [0, 300, 0, 128 * 1024][i % 4], False,
-                        "hostile" if i % 3 else "plain", "small", i))
+                        "hostile" if i % 3 else "plain", "small", i, torn=0))
     # pass 1: fault-free runs tell how many file operations each input performs
     summ0 = run_all(ctx, binary, bases, "c12base")
     points = []
@@ -644,7 +691,7 @@ def run_c12(ctx, binary):
     for n, (s, step, k) in enumerate(points):
         steps = [dict(st) for st in s["steps"]]
         steps[step]["fail"] = k
-        scheds.append(mk(1000 + n, steps, s["cfg"]["mcs"], False, s["cfg"]["cls"], s["cfg"]["tcls"], s["cfg"]["cid"]))
+        scheds.append(mk(1000 + n, steps, s["cfg"]["mcs"], False, s["cfg"]["cls"], s["cfg"]["tcls"], s["cfg"]["cid"], torn=0))
     summ = run_all(ctx, binary, scheds, "c12")
     viol, seen = confirm(ctx, binary, summ, {s["id"]: s for s in scheds}, "C12_")
     mc, reach = bg.join()
@@ -664,7 +711,7 @@ def run_c13(ctx, binary):
     th = ctx.thorough()
     bg = Background(ctx, lambda c: exhaustive(
         c, consts(2, 1, 2 if th else 1, 5, 3 if th else 2, 0, False, True, "{0, 60, 100000}", "{FALSE, TRUE}"), "C13"))
-    num, depth = (300, 36) if th else (40, 30)
+    num, depth = (300, 36) if th else (36, 30)
     base = simulate(ctx, [1, 1, 2, 3, 4, 5, 6, 7, 8, 9, 9, 10], num, depth, leave=True, sess=3)
     rng = random.Random(ctx.seed)
     scheds = []
@@ -715,8 +762,10 @@ def run_c13(ctx, binary):
         if ent and ent[0]["after"] is not None and not ent[0]["compact"] and ent[0]["before"] >= 256 * ent[0]["n"] and ent[0]["n"] > 0:
             for d in (0, 5):
                 dscheds.append(directed(ls, ent[0], d, 410000 + len(dscheds)))
-    summ = run_all(ctx, binary, scheds + dscheds, "c13")
-    scheds += dscheds
+    # the leave issued through the REAL Serf.Leave of a quiet Serf node with a snapshot file, in every membership situation
+    sscheds = serf_level(ctx, 120 if th else 16, 12)
+    summ = run_all(ctx, binary, scheds + dscheds + sscheds, "c13")
+    scheds += dscheds + sscheds
     viol, seen = confirm(ctx, binary, summ, {s["id"]: s for s in scheds}, "C13_")
     leaves = sum(1 for s in scheds for st in s["steps"] if st["a"] == "leave")
     mc = bg.join()
@@ -728,4 +777,5 @@ def run_c13(ctx, binary):
            "rejoin-after-leave settings and thresholds 0/300/128K; distinct = distinct (history, threshold)",
            {"model_constants": "exhaustive: 2 names, times 0..%d, <=%d inputs, %d sessions, both rejoin-after-leave settings, "
                                "thresholds {0,60,never}" % (2 if th else 1, 5, 3 if th else 2),
-            "evaluations": leaves, "leave_line_crosses_threshold_schedules": len(dscheds)}, ASSUME)
+            "evaluations": leaves, "leave_line_crosses_threshold_schedules": len(dscheds),
+            "serf_level_schedules": len(sscheds)}, ASSUME)
